@@ -64,5 +64,14 @@ def run(ck, rng):
                           "got": r1[i][:300], "got2": r2[i][:300], "expected": r2[i],
                           "why": "two spellings of the same forest give different results"})
         elif r1[i] != m1[i]:
-            broken = broken or (c1[i][:1500], r1[i][:300], m1[i][:300])
+            def utf8(n):
+                try:
+                    n.decode("utf-8")
+                    return True
+                except UnicodeDecodeError:
+                    return False
+            if op.startswith(("out y", "out t")) and not all(utf8(n) for _, n in items):
+                ck.count("yaml_toml_invalid_utf8_not_compared_with_model")     # outside every claim (opaque encoders)
+            else:
+                broken = broken or (c1[i][:1500], r1[i][:300], m1[i][:300])
     return broken
